@@ -189,7 +189,7 @@ def finish(mod, fold, repo, t0):
     known, listed, unlisted = classify(prop, fold)
     inconclusive = []
     if fold["dead"]:
-        inconclusive.append("shards died: " + "; ".join(f"{e}/{s}: {why[:200]}" for e, s, why in fold["dead"][:3]))
+        inconclusive.append("shards died: " + "; ".join(f"{e}/{s}: {why[-300:]}" for e, s, why in fold["dead"][:2]).replace("\n", " | "))
     if fold["errors"]:
         inconclusive.append(f"{len(fold['errors'])} harness errors, first: " + fold["errors"][0]["tb"][-400:].replace("\n", " | "))
     if fold["cases"] and fold["watchdog_hits"] > max(2, 0.01 * fold["cases"]):
@@ -200,8 +200,9 @@ def finish(mod, fold, repo, t0):
         scale = max(1.0, 0.5 * mod.CASES["thorough"] / mod.CASES["quick"])
     if os.environ.get("LMM_CASES"):
         scale = min(1.0, int(os.environ["LMM_CASES"]) / mod.CASES["quick"] * 0.5)
-    for k, floor in floors.items():
-        need = int(floor * scale)
+    fixed = dict(getattr(mod, "FLOORS_FIXED", {}))
+    allfloors = [(k, int(v * scale)) for k, v in floors.items()] + [(k, int(v)) for k, v in fixed.items()]
+    for k, need in ([] if fold["dead"] else allfloors):
         have = fold["nontrivial_count"] if k == "distinct_nontrivial" and "nontrivial_count" in fold else (
             len(fold["nontrivial"]) if k == "distinct_nontrivial" else (
                 fold["evaluations"] if k == "evaluations" else fold["counters"].get(k, 0)))
